@@ -57,6 +57,47 @@ fn parse_opts(args: &[String]) -> Opts {
     o
 }
 
+/// Builder methods are applied in the order the options were given (the result must not depend on it).
+fn build_compile(rest: &[String]) -> Compile {
+    let pos = |name: &str| rest.iter().position(|a| a == name).and_then(|i| rest.get(i + 1)).cloned();
+    let mut c = match (pos("--file"), pos("--dir")) {
+        (Some(f), _) => Compile::file(f),
+        (_, Some(d)) => Compile::directory(d),
+        _ => {
+            eprintln!("compile needs --file or --dir");
+            std::process::exit(2);
+        }
+    };
+    let mut i = 0;
+    while i < rest.len() {
+        let val = |i: usize| rest.get(i + 1).cloned().unwrap_or_default();
+        match rest[i].as_str() {
+            "--dest" => {
+                c = c.destination(val(i));
+                i += 1;
+            }
+            "--prefix" => {
+                c = c.prefix(val(i));
+                i += 1;
+            }
+            "--format" => c = c.format(),
+            "--derives" => {
+                c = c.derives(val(i).split(',').map(|s| s.to_string()).collect());
+                i += 1;
+            }
+            "--no-derives" => c = c.derives(vec![]),
+            "--ctx" => {
+                c = c.user_context_type(&val(i));
+                i += 1;
+            }
+            "--file" | "--dir" => i += 1,
+            _ => {}
+        }
+        i += 1;
+    }
+    c
+}
+
 fn main() {
     let args: Vec<String> = std::env::args().collect();
     if args.len() < 2 {
@@ -91,43 +132,7 @@ fn main() {
             }
         }
         "compile" => {
-            // builder methods are applied in the order the options were given (the result must not depend on it)
-            let mut c = match (&o.file, &o.dir) {
-                (Some(f), _) => Compile::file(f),
-                (_, Some(d)) => Compile::directory(d),
-                _ => {
-                    eprintln!("compile needs --file or --dir");
-                    std::process::exit(2);
-                }
-            };
-            let rest = &args[2..];
-            let mut i = 0;
-            while i < rest.len() {
-                let val = |i: usize| rest.get(i + 1).cloned().unwrap_or_default();
-                match rest[i].as_str() {
-                    "--dest" => {
-                        c = c.destination(val(i));
-                        i += 1;
-                    }
-                    "--prefix" => {
-                        c = c.prefix(val(i));
-                        i += 1;
-                    }
-                    "--format" => c = c.format(),
-                    "--derives" => {
-                        c = c.derives(val(i).split(',').map(|s| s.to_string()).collect());
-                        i += 1;
-                    }
-                    "--no-derives" => c = c.derives(vec![]),
-                    "--ctx" => {
-                        c = c.user_context_type(&val(i));
-                        i += 1;
-                    }
-                    "--file" | "--dir" => i += 1,
-                    _ => {}
-                }
-                i += 1;
-            }
+            let c = build_compile(&args[2..]);
             if o.exit {
                 c.run_exit_on_error();
                 println!("Returned");
@@ -135,6 +140,74 @@ fn main() {
                 match c.run() {
                     Ok(()) => println!("Ok"),
                     Err(e) => println!("Err\n{e:?}"),
+                }
+            }
+        }
+        "compile-script" => {
+            // a whole history inside ONE process: file operations and Compile runs in sequence
+            // (tab separated fields; W path hex | RM path | LN target path | MKDIR path | UT path secs |
+            //  SNAP label path.. | RUN label args..); snapshots go to the directory given as second argument
+            let script = std::fs::read_to_string(&o.positional[0]).expect("script");
+            let snapdir = std::path::PathBuf::from(&o.positional[1]);
+            std::fs::create_dir_all(&snapdir).expect("snapdir");
+            for line in script.lines() {
+                let f: Vec<&str> = line.split('\t').collect();
+                match f[0] {
+                    "W" => {
+                        let p = std::path::Path::new(f[1]);
+                        if let Some(parent) = p.parent() {
+                            let _ = std::fs::create_dir_all(parent);
+                        }
+                        let bytes: Vec<u8> = (0..f[2].len() / 2).map(|i| u8::from_str_radix(&f[2][2 * i..2 * i + 2], 16).unwrap()).collect();
+                        std::fs::write(p, bytes).expect("script write");
+                    }
+                    "RM" => {
+                        let p = std::path::Path::new(f[1]);
+                        match std::fs::symlink_metadata(p) {
+                            Ok(m) if m.is_dir() => {
+                                let _ = std::fs::remove_dir_all(p);
+                            }
+                            Ok(_) => {
+                                let _ = std::fs::remove_file(p);
+                            }
+                            Err(_) => {}
+                        }
+                    }
+                    "LN" => {
+                        std::os::unix::fs::symlink(f[1], f[2]).expect("script symlink");
+                    }
+                    "MKDIR" => {
+                        std::fs::create_dir_all(f[1]).expect("script mkdir");
+                    }
+                    "UT" => {
+                        let t = std::time::UNIX_EPOCH + std::time::Duration::from_secs(f[2].parse().unwrap());
+                        if let Ok(file) = std::fs::File::options().write(true).open(f[1]) {
+                            let _ = file.set_times(std::fs::FileTimes::new().set_accessed(t).set_modified(t));
+                        }
+                    }
+                    "SNAP" => {
+                        for (i, path) in f[2..].iter().enumerate() {
+                            let mt = snapdir.join(format!("{}.{}.mt", f[1], i));
+                            match std::fs::symlink_metadata(path) {
+                                Ok(m) if m.is_file() => {
+                                    let ns = m.modified().unwrap().duration_since(std::time::UNIX_EPOCH).unwrap().as_nanos();
+                                    std::fs::copy(path, snapdir.join(format!("{}.{}.bin", f[1], i))).expect("snap copy");
+                                    std::fs::write(mt, ns.to_string()).unwrap();
+                                }
+                                Ok(_) => std::fs::write(mt, "notfile").unwrap(),
+                                Err(_) => std::fs::write(mt, "absent").unwrap(),
+                            }
+                        }
+                    }
+                    "RUN" => {
+                        let a: Vec<String> = f[2..].iter().map(|s| s.replace("\\n", "\n")).collect();
+                        let c = build_compile(&a);
+                        match c.run() {
+                            Ok(()) => println!("RESULT\t{}\tOk", f[1]),
+                            Err(e) => println!("RESULT\t{}\tErr\t{}", f[1], format!("{e:?}").replace('\n', " ").chars().take(200).collect::<String>()),
+                        }
+                    }
+                    _ => {}
                 }
             }
         }
